@@ -513,28 +513,33 @@ func (t *Translator) call1(st *State, in *ssa.Call) {
 	for _, a := range c.Args {
 		args = append(args, t.argTerm(st, a))
 	}
+	t.setResults(in, t.staticCall(st, in, callee, args, c.Args))
+}
+
+// staticCall models a call of a known function: contract, inlining, intrinsic or havoc.
+func (t *Translator) staticCall(st *State, in *ssa.Call, callee *ssa.Function, args []string, argVals []ssa.Value) []string {
 	spec := t.w.specFor(callee)
 	inRepo := callee.Blocks != nil && callee.Pkg != nil && isRepoPkg(callee.Pkg.Pkg.Path())
 	if spec == nil && inRepo && t.canInline(callee) {
-		res := t.inline(st, in, callee, args)
-		t.setResults(in, res)
-		return
+		return t.inline(st, in, callee, args)
 	}
 	if spec == nil && !inRepo {
 		if res, ok := t.intrinsic(st, in, callee, args); ok {
-			t.setResults(in, res)
-			return
+			return res
 		}
 		t.vc.note("extern without contract treated as pure with arbitrary result: %s", callee.String())
 	}
 	if spec == nil && inRepo {
 		t.vc.note("callee without contract not inlined: %s (write set havocked)", shortFuncName(callee))
 	}
-	res := t.applyContract(st, callee, spec, args, c.Args, "", in.Pos(), nil)
-	t.setResults(in, res)
+	return t.applyContract(st, callee, spec, args, argVals, "", in.Pos(), nil)
 }
 
 func (t *Translator) havocWrites(st *State, ws *WriteSet, preds map[string]func(string) string, pre *HeapState) {
+	t.havocWritesSpec(st, ws, preds, pre, false)
+}
+
+func (t *Translator) havocWritesSpec(st *State, ws *WriteSet, preds map[string]func(string) string, pre *HeapState, modAll bool) {
 	if ws.all {
 		var names []string
 		for n := range t.w.heap.arrs {
@@ -560,6 +565,9 @@ func (t *Translator) havocWrites(st *State, ws *WriteSet, preds map[string]func(
 			}
 			if preds == nil {
 				// no contract: anything allocated may change
+				continue
+			}
+			if _, explicit := preds[n]; !explicit && modAll {
 				continue
 			}
 			t.assume(st, frameFormula(nv, old, pre.next, p, t.vc.fresh()))
@@ -628,7 +636,7 @@ func (t *Translator) applyContract(st *State, callee *ssa.Function, spec *FuncSp
 		preds = t.modPreds2(spec, env)
 	}
 	if guard == "" {
-		t.havocWrites(st, ws, preds, pre)
+		t.havocWritesSpec(st, ws, preds, pre, spec != nil && spec.ModAll)
 		if len(ws.arrs) > 0 || callee.Blocks != nil || (spec != nil && !spec.Pure) {
 			nn := t.vc.freshConst("next", "Int")
 			t.assume(st, "(>= "+nn+" "+pre.next+")")
@@ -821,17 +829,12 @@ func (t *Translator) invoke(st *State, in *ssa.Call) {
 	}
 	it := c.Value.Type().Underlying().(*types.Interface)
 	impls := t.w.implementersOf(it)
-	res := t.freshResults(st, sig, c.Method.Name())
-	pre := st.heap.clone()
-	// havoc union of write sets once, then per-implementation guarded contracts
-	ws := newWriteSet()
-	type alt struct {
-		f     *ssa.Function
-		guard string
-		recv  string
-		spec  *FuncSpec
+	// closed-world dispatch: one branch per implementation, each handled as a static call, then joined
+	type branch struct {
+		st  *State
+		res []string
 	}
-	var alts []alt
+	var branches []branch
 	var guards []string
 	for _, impl := range impls {
 		f := t.w.Prog.LookupMethod(impl, c.Method.Pkg(), c.Method.Name())
@@ -839,6 +842,7 @@ func (t *Translator) invoke(st *State, in *ssa.Call) {
 			continue
 		}
 		guard := fmt.Sprintf("(= (itag %s) %d)", recv, t.S().Tag(impl))
+		guards = append(guards, guard)
 		var rv string
 		switch impl.Underlying().(type) {
 		case *types.Pointer, *types.Map:
@@ -847,118 +851,48 @@ func (t *Translator) invoke(st *State, in *ssa.Call) {
 			_, unbox := t.vc.needBox(t.S().SortOf(impl))
 			rv = "(" + unbox + " (iref " + recv + "))"
 		}
-		// wrapper functions (value receiver promoted to pointer) have no repo body spec: use as is
-		sp := t.w.specFor(f)
-		ws.union(t.w.calleeWrites(f))
-		alts = append(alts, alt{f, guard, rv, sp})
-		guards = append(guards, guard)
+		bs := st.clone()
+		npc := t.vc.newPC("disp", st.pc)
+		t.vc.assume(npc, "(and "+st.pc+" "+guard+")")
+		bs.pc = npc
+		bs.pcHasOb = false
+		if _, isPtr := impl.Underlying().(*types.Pointer); isPtr {
+			t.assumeTyped(bs, rv, impl)
+		}
+		full := append([]string{rv}, args...)
+		r := t.staticCall(bs, in, f, full, nil)
+		branches = append(branches, branch{bs, r})
 	}
-	if len(alts) == 0 {
+	if len(branches) == 0 {
 		t.vc.note("no implementation found for %s", c.Method.FullName())
+		res := t.freshResults(st, sig, c.Method.Name())
+		for i, r := range res {
+			t.assumeTyped(st, r, sig.Results().At(i).Type())
+		}
+		t.setResults(in, res)
+		return
+	}
+	t.vc.note("closed-world dispatch on %s", types.TypeString(c.Value.Type(), nil))
+	// closed world: the receiver's dynamic type is one of the known implementations
+	t.assume(st, "(or "+strings.Join(guards, " ")+")")
+	var ins []edgeIn
+	for _, b := range branches {
+		ins = append(ins, edgeIn{nil, b.st})
+	}
+	var res []string
+	if len(branches) == 1 {
+		res = branches[0].res
 	} else {
-		t.assume(st, "(or "+strings.Join(guards, " ")+")")
-		t.vc.note("closed-world dispatch on %s", types.TypeString(c.Value.Type(), nil))
-	}
-	// requires (guarded), evaluated in pre-state
-	for _, a := range alts {
-		if a.spec == nil {
-			continue
-		}
-		vars := map[string]binding{}
-		names := paramNames(a.f, a.spec)
-		full := append([]string{a.recv}, args...)
-		for i, n := range names {
-			if i < len(full) {
-				vars[n] = binding{term: full[i], typ: &SType{Go: sigParamType(a.f.Signature, i)}}
+		for i := 0; i < sig.Results().Len(); i++ {
+			cst := t.vc.freshConst("r!"+sanitize(c.Method.Name()), t.S().SortOf(sig.Results().At(i).Type()))
+			for _, b := range branches {
+				t.vc.assume(b.st.pc, "(= "+cst+" "+b.res[i]+")")
 			}
-		}
-		env := &Env{w: t.w, vc: t.vc, cur: pre, old: pre, vars: vars, ctx: t.w.ctxFor(a.f.Pkg.Pkg.Path(), a.spec.File)}
-		for _, cl := range a.spec.Requires {
-			f, _ := env.Eval(cl.E)
-			label := shortFuncName(a.f)
-			if cl.Label != "" {
-				label += "." + cl.Label
-			}
-			tags := cl.Tags
-			if len(tags) == 0 {
-				tags = t.safetyTags
-			}
-			t.oblige(st, "call.requires@"+label, "", tags, "(=> "+a.guard+" "+f+")", t.w.pos(in.Pos()), cl.Src)
+			res = append(res, cst)
 		}
 	}
-	// heap effect: havoc union; frame per alternative (guarded)
-	newVers := map[string]string{}
-	if ws.all {
-		t.havocWrites(st, ws, nil, pre)
-	} else {
-		for _, n := range ws.sorted() {
-			a := t.w.heap.arrs[n]
-			newVers[n] = t.havocArr(st, a)
-		}
-		if len(ws.arrs) > 0 {
-			nn := t.vc.freshConst("next", "Int")
-			t.assume(st, "(>= "+nn+" "+pre.next+")")
-			st.heap.next = nn
-		}
-	}
-	for _, a := range alts {
-		vars := map[string]binding{}
-		names := paramNames(a.f, a.spec)
-		full := append([]string{a.recv}, args...)
-		for i, n := range names {
-			if i < len(full) {
-				vars[n] = binding{term: full[i], typ: &SType{Go: sigParamType(a.f.Signature, i)}}
-			}
-		}
-		var preds map[string]func(string) string
-		var cctx *ResCtx
-		if a.spec != nil {
-			cctx = t.w.ctxFor(a.f.Pkg.Pkg.Path(), a.spec.File)
-			env := &Env{w: t.w, vc: t.vc, cur: pre, old: pre, vars: vars, ctx: cctx}
-			preds = t.modPreds(a.spec, env)
-			a.spec.Used = true
-		}
-		aws := t.w.calleeWrites(a.f)
-		for n, nv := range newVers {
-			arr := t.w.heap.arrs[n]
-			old := t.arrTerm(arr, pre)
-			if !isHeapArrayFamily(arr) {
-				continue
-			}
-			if !aws.arrs[n] && !aws.all {
-				t.assume(st, "(=> "+a.guard+" (= "+nv+" "+old+"))")
-				continue
-			}
-			if preds == nil {
-				continue
-			}
-			t.assume(st, "(=> "+a.guard+" "+frameFormula(nv, old, pre.next, preds[n], t.vc.fresh())+")")
-		}
-		if a.spec != nil {
-			ev := map[string]binding{}
-			for k, v := range vars {
-				ev[k] = v
-			}
-			for i, r := range res {
-				b := binding{term: r, typ: &SType{Go: sig.Results().At(i).Type()}}
-				if len(res) == 1 {
-					ev["res"] = b
-				}
-				ev[fmt.Sprintf("res%d", i)] = b
-				if nm := a.f.Signature.Results().At(i).Name(); nm != "" && nm != "_" {
-					ev[nm] = b
-				}
-				if i < len(a.spec.Results) {
-					ev[a.spec.Results[i]] = b
-				}
-			}
-			env := &Env{w: t.w, vc: t.vc, cur: st.heap, old: pre, vars: ev, ctx: cctx}
-			for _, cl := range a.spec.Ensures {
-				f, _ := env.Eval(cl.E)
-				t.assume(st, "(=> "+a.guard+" "+f+")")
-			}
-		}
-	}
+	joined := t.join(in.Block(), ins)
+	*st = *joined
 	for i, r := range res {
 		t.assumeTyped(st, r, sig.Results().At(i).Type())
 	}
@@ -1043,7 +977,7 @@ func (t *Translator) builtin(st *State, in *ssa.Call, b *ssa.Builtin) {
 			t.vals[in] = slLen(t.S().SortOf(args[0].Type()), x)
 		case *types.Basic:
 			t.vc.needStrFuns()
-			t.vals[in] = "(str.len " + x + ")"
+			t.vals[in] = "(str!len " + x + ")"
 		case *types.Array:
 			t.vals[in] = fmt.Sprint(u.Len())
 		case *types.Pointer:
